@@ -125,6 +125,71 @@ Proof.
   rewrite bind_done_r. apply (conv_try_from_buint dbg w lg); assumption.
 Qed.
 
+(* ---- primitive -> bnum.  bint from_int!: `impl From<$int> for $BInt<N>`, $int = i8 .. i128, isize (the parameter handled as its
+   value: `int >> s` is floor division, `as $Digit` reduction mod 2^w) ---- *)
+Lemma bint_from_int_loop dbg w lg pb int : 0 <= lg -> w = 2 ^ lg ->
+  forall f fuel i out, pb <= Z.of_nat (i + f) * w -> (f <= fuel)%nat ->
+  bind (while_loop (R := list Z) fuel
+          (fun '(out, i) => ((ix_shl i (digit_BIT_SHIFT w)) <? pb))
+          (fun '(out, i) =>
+             t1' <- pshr pb int (ix_shl i (digit_BIT_SHIFT w)) ;;
+             let d := (ud w t1') in
+             out <- arr_set out i d ;;
+             let i := (i + 1) in
+             Done (Continue (out, i)))
+          (out, Z.of_nat i))
+       (fun t2' => match t2' with Exited (out, i) => Done out | Returned t3' => Done t3' end)
+  = of_out (Cast.while_ f (fun i _ => Z.of_nat i * w <? pb)
+              (fun i out => obind (Cast.shr_chk dbg pb int (Z.of_nat i * w)) (fun t => Cast.wr out i (ud w t)))
+              i out).
+Proof.
+  intros Hlg Hw. assert (Hw0 : 0 < w) by (subst w; apply Z.pow_pos_nonneg; lia).
+  induction f as [|f IH]; intros fuel i out Hend Hf.
+  - cbn [Cast.while_ of_out]. rewrite while_loop_cond_false; [reflexivity|].
+    rewrite (ix_shl_BIT_SHIFT w lg) by assumption. rewrite Nat.add_0_r in Hend. apply Z.ltb_ge. exact Hend.
+  - cbn [Cast.while_]. destruct (Z.ltb_spec (Z.of_nat i * w) pb) as [Hlt|Hge].
+    + destruct fuel as [|fuel]; [lia|]. rewrite while_loop_S. cbv beta iota.
+      rewrite (ix_shl_BIT_SHIFT w lg) by assumption.
+      destruct (Z.ltb_spec (Z.of_nat i * w) pb) as [_|?]; [|lia].
+      rewrite pshr_ok by nia. rewrite shr_chk_in_range by exact Hlt. cbn [bind obind]. cbv zeta.
+      rewrite <- wr_as_arr_set. destruct (Cast.wr out i _) as [out'|]; [|reflexivity]. cbn [bind].
+      replace (Z.of_nat i + 1) with (Z.of_nat (S i)) by lia.
+      apply IH; [|lia]. replace (S i + f)%nat with (i + S f)%nat by lia. exact Hend.
+    + cbn [of_out]. rewrite while_loop_cond_false; [reflexivity|].
+      rewrite (ix_shl_BIT_SHIFT w lg) by assumption. apply Z.ltb_ge. exact Hge.
+Qed.
+
+Lemma conv_bint_from_int dbg w lg n pb int : 0 <= lg -> w = 2 ^ lg -> 0 < pb ->
+  forall fuel, (Z.to_nat pb <= fuel)%nat ->
+  ConvGen.bint_from_int w (Z.of_nat n) fuel pb int =
+  match Convert.I_from_iint dbg pb w n int with Ret r => Done r | Panic => Panicked end.
+Proof.
+  intros Hlg Hw Hpb fuel Hf. assert (Hw0 : 0 < w) by (subst w; apply Z.pow_pos_nonneg; lia).
+  unfold ConvGen.bint_from_int, Convert.I_from_iint. rewrite Nat2Z.id. cbv zeta.
+  apply (bint_from_int_loop dbg w lg pb int Hlg Hw (Z.to_nat pb) fuel 0%nat); [|exact Hf].
+  cbn [Nat.add]. nia.
+Qed.
+
+(* bint from_uint!: `impl From<$from> for $BInt<N>`: Self::from_bits($BUint::from(int)); $BUint::from is the hand model's
+   U_from_uint (its own tie: Proofs/LoopsTieC13.v) *)
+Lemma conv_bint_from_uint dbg w n pb int fuel :
+  ConvGen.bint_from_uint dbg w (Z.of_nat n) fuel pb int =
+  match Convert.I_from_uint dbg pb w n int with Ret r => Done r | Panic => Panicked end.
+Proof.
+  unfold ConvGen.bint_from_uint, Convert.I_from_uint. rewrite Nat2Z.id.
+  destruct (Convert.U_from_uint dbg pb w n int); reflexivity.
+Qed.
+
+(* buint try_from_iint!: `impl TryFrom<$int> for $BUint<N>` ($int -> $uint pairs of the same width, checked) *)
+Lemma conv_try_from_iint dbg w n pb int fuel :
+  ConvGen.try_from_iint dbg w (Z.of_nat n) fuel pb int =
+  match Convert.U_try_from_iint dbg pb w n int with Ret r => Done r | Panic => Panicked end.
+Proof.
+  unfold ConvGen.try_from_iint, Convert.U_try_from_iint. rewrite Nat2Z.id.
+  destruct (int <? 0); [reflexivity|]. cbv zeta.
+  destruct (Convert.U_from_uint dbg pb w n (ud pb int)); reflexivity.
+Qed.
+
 (* ---- all obligations of the group in one statement ---- *)
 Theorem conv_C13_match_model dbg w lg : 0 <= lg -> w = 2 ^ lg ->
   forall n pb ds fuel, 0 < pb -> length ds = n -> (S n <= fuel)%nat ->
@@ -139,4 +204,19 @@ Proof.
   - intros ps. apply (conv_try_from_buint dbg w lg); assumption.
   - apply (conv_int_try_from_bint dbg w lg); assumption.
   - apply (conv_uint_try_from_bint dbg w lg); assumption.
+Qed.
+
+Theorem conv_C13_from_match_model dbg w lg : 0 <= lg -> w = 2 ^ lg ->
+  forall n pb int fuel, 0 < pb -> (Z.to_nat pb <= fuel)%nat ->
+  ConvGen.bint_from_int w (Z.of_nat n) fuel pb int =
+    match Convert.I_from_iint dbg pb w n int with Ret r => Done r | Panic => Panicked end /\
+  ConvGen.bint_from_uint dbg w (Z.of_nat n) fuel pb int =
+    match Convert.I_from_uint dbg pb w n int with Ret r => Done r | Panic => Panicked end /\
+  ConvGen.try_from_iint dbg w (Z.of_nat n) fuel pb int =
+    match Convert.U_try_from_iint dbg pb w n int with Ret r => Done r | Panic => Panicked end.
+Proof.
+  intros Hlg Hw n pb int fuel Hpb Hf. split; [|split].
+  - apply (conv_bint_from_int dbg w lg); assumption.
+  - apply conv_bint_from_uint.
+  - apply conv_try_from_iint.
 Qed.
